@@ -185,7 +185,7 @@ func anchorMatches(at *AtClause, kind, name string) bool {
 	if pat == "" {
 		return true
 	}
-	return name == pat || strings.HasSuffix(name, "."+pat) || strings.HasSuffix(name, ")."+pat) || strings.HasSuffix(name, pat)
+	return name == pat || strings.HasSuffix(name, "."+pat) || strings.HasSuffix(name, ")."+pat)
 }
 
 func (ex *Exec) fireAnchorsBefore(kind, name string, c *ssa.CallCommon, args []Value, pos token.Pos) {
